@@ -22,6 +22,13 @@ def add (a b : V3) : V3 := ⟨a.x + b.x, a.y + b.y, a.z + b.z⟩
 def sub (a b : V3) : V3 := ⟨a.x - b.x, a.y - b.y, a.z - b.z⟩
 end V3
 
+/-! ## durations -/
+
+/-- `timedelta.total_seconds()` of a normalised timedelta (`days`, `0 ≤ seconds < 86400`, `0 ≤ microseconds < 10⁶`):
+`((days·86400 + seconds)·10⁶ + microseconds) / 10⁶` (CPython: one true division of two integers) — the number of seconds
+that `_F` (lambert.py) and `J2.propagate` read from the durations they are given (`timedeltaReads`, Generated/LeoFn) -/
+def tdTotal (days seconds microseconds : R) : R := ((days * 86400 + seconds) * 1000000 + microseconds) / 1000000
+
 /-! ## `_lambert` -/
 
 /-- transfer angle: `arccos(r0.r1 / (|r0||r1|))`, replaced by `2π - …` according to the requested direction and the sign
